@@ -791,10 +791,15 @@ def _x3_linear_lags(ctx, cur):
     for it in range(40 if ctx.tier == 'quick' else 400):
         steps = rng.choice([2, 3, 5, 10])
         n = rng.choice([2 * steps + 3, 12 + steps, 20 + steps, 40, 75])
-        kind = ['integer ramp', 'steep ramp', 'uniform staircase', 'ramp + short period', 'ramp with one kink', 'sample counter'][it % 6]
+        kind = ['integer ramp', 'steep ramp', 'uniform staircase', 'ramp + short period', 'ramp with one kink', 'sample counter',
+                'small motion on a huge level', 'small motion on a huge level'][it % 8]
         slope = rng.choice([1, 2, 3, -1, -4, 7])
         j = np.arange(n)
-        if kind == 'integer ramp':
+        if kind == 'small motion on a huge level':
+            # absolute coordinates / time stamps / large-offset counts: level 2^40 ... 2^46, motion of a few units (all whole numbers, exact in
+            # binary64 incl. the squared residuals of the right lag; a lag search through sum(a^2) + sum(b^2) - 2 sum(ab) cancels catastrophically)
+            base = 2 ** rng.choice([40, 43, 46]) + np.array([rng.randint(-6, 6) for _ in range(n)])
+        elif kind == 'integer ramp':
             base = slope * j + rng.randint(-20, 20)
         elif kind == 'sample counter':
             base = j.copy()
